@@ -1,0 +1,58 @@
+//go:build verif
+
+package comp
+
+// Verification-only accessors and snapshot types (build tag "verif").
+
+// VerifCounts exposes the reader/writer counters of a line lock.
+func (s *Sem) VerifCounts() (int, int) { return s.read, s.write }
+
+// VerifLine is a copy of one resident cache line.
+type VerifLine struct {
+	Base int32
+	Data []int8
+}
+
+// VerifCore is the per-core part of a coherence snapshot.
+type VerifCore struct {
+	States    map[int32]int32 // line base -> protocol state (0 invalid, 1 shared, 2 modified)
+	L1        []VerifLine
+	ReadBusy  bool
+	WriteBusy bool
+	SnoopBusy bool
+	RLocks    []int32
+	Locks     []int32
+}
+
+// VerifMSISnap is a copy of the coherence-relevant state at a cycle boundary.
+type VerifMSISnap struct {
+	Cores      []VerifCore
+	Sems       map[int32][2]int
+	Commands   [][3]int32 // core, line base, request type
+	HasL3      bool
+	L3         []VerifLine
+	L3Dirty    map[int32]bool
+	L1LineSize int
+	L1Lines    int
+	L3LineSize int
+	L3Lines    int
+	Mem        []int8 // aliases main memory; read-only for the monitor
+}
+
+func VerifCopyLines(c *LRUCache) []VerifLine {
+	out := make([]VerifLine, 0, len(c.lines))
+	for _, l := range c.lines {
+		out = append(out, VerifLine{Base: int32(l.Boundary[0]), Data: append([]int8(nil), l.Data...)})
+	}
+	return out
+}
+
+// VerifIterYield, when set, is called by the iterator goroutines between two
+// elements (used to widen the only real goroutine interleaving window).
+var VerifIterYield func()
+
+func verifIterYield() {
+	if f := VerifIterYield; f != nil {
+		f()
+	}
+}
